@@ -4,6 +4,33 @@ import Norad.Lemmas.RoundTrip
 -/
 namespace RT
 
+/-- What is assumed of the un-modelled parts — one NAMED field per hypothesis; `Props/C01Bridge.lean`
+    says which theorem of which property discharges each of them for norad's own codecs. -/
+structure PartLaws (P : Parts) where
+  /-- guard of the glif round trip -/
+  glyphOK : P.Glyph → Prop
+  /-- what the parser returns for a written glyph (colour to 3 decimals, …) -/
+  normGlyph : P.Glyph → P.Glyph
+  /-- **glyph files** — C02 `glif_roundtrip_partial_no_object_libs` / `parse_encode` -/
+  glyph_rt : ∀ g, glyphOK g → P.decGlyph (P.encGlyph g) = some (normGlyph g)
+  /-- **other font-info fields** — serde field table ↔ plist dictionary for a valid value -/
+  rest_rt : ∀ r, P.restValid r = true → P.decRest (P.encRest r) = some r
+
+/-- needed for C04 only: a glyph that was read back is inside the guard again -/
+structure NormLaws {P : Parts} (L : PartLaws P) : Prop where
+  norm_ok : ∀ g, L.glyphOK g → L.glyphOK (L.normGlyph g)
+
+/-- the laws hold trivially for opaque tokens -/
+def tokenLaws : PartLaws tokenParts where
+  glyphOK := fun _ => True
+  normGlyph := id
+  glyph_rt := fun _ _ => rfl
+  rest_rt := fun _ _ => rfl
+
+theorem tokenNorm : NormLaws tokenLaws := ⟨fun _ _ => trivial⟩
+
+variable {P : Parts} (L : PartLaws P)
+
 /-! ## generic list facts -/
 
 theorem nodupS_cons (a : String) (r : List String) : nodupS (a :: r) = true ↔ a ∉ r ∧ nodupS r = true := by
@@ -231,11 +258,15 @@ def milliCol (c : ColV) : ColV :=
   ColV.milli (saveColor c).1 (saveColor c).2.1 (saveColor c).2.2.1 (saveColor c).2.2.2
 
 /-- what a layer is after save + load: colour to three decimals, lib with sorted keys -/
-def rtLayer (l : Layer) : Layer := { l with color := l.color.map milliCol, lib := sortDict l.lib }
+def normE (g : (GlyphE P)) : (GlyphE P) := { g with tok := L.normGlyph g.tok }
 
-theorem loadGlyphs_spec (l : Layer) (h : nodupS (l.glyphs.map (·.file)) = true) :
-    ∀ xs : List GlyphE, (∀ x ∈ xs, x ∈ l.glyphs) →
-      loadGlyphs (saveLayerDir l) (xs.map fun g => (g.name, g.file)) = some xs := by
+def rtLayer (l : (Layer P)) : (Layer P) :=
+  { l with color := l.color.map milliCol, lib := sortDict l.lib, glyphs := l.glyphs.map (normE L) }
+
+theorem loadGlyphs_spec (l : (Layer P)) (h : nodupS (l.glyphs.map (·.file)) = true)
+    (hok : ∀ g ∈ l.glyphs, L.glyphOK g.tok) :
+    ∀ xs : List (GlyphE P), (∀ x ∈ xs, x ∈ l.glyphs) →
+      loadGlyphs (saveLayerDir l) (xs.map fun g => (g.name, g.file)) = some (xs.map (normE L)) := by
   intro xs
   induction xs with
   | nil => intro _; rfl
@@ -243,14 +274,15 @@ theorem loadGlyphs_spec (l : Layer) (h : nodupS (l.glyphs.map (·.file)) = true)
     intro hx
     have hg : g ∈ l.glyphs := hx g (List.mem_cons_self ..)
     have hr := ih (fun x hx' => hx x (List.mem_cons_of_mem _ hx'))
-    have hl : lookupS g.file (saveLayerDir l).glifs = some g.tok := by
-      simpa [saveLayerDir] using lookupS_map (·.file) (·.tok) l.glyphs h g hg
-    simp only [List.map_cons, loadGlyphs, hl, hr]
+    have hl : lookupS g.file (saveLayerDir l).glifs = some (P.encGlyph g.tok) := by
+      simpa [saveLayerDir] using lookupS_map (·.file) (fun x => P.encGlyph x.tok) l.glyphs h g hg
+    simp only [List.map_cons, loadGlyphs, hl, hr, Option.bind_some, L.glyph_rt g.tok (hok g hg), normE]
 
-theorem loadLayer_spec (l : Layer) (h : nodupS (l.glyphs.map (·.file)) = true) :
-    loadLayer l.name l.dir (saveLayerDir l) = some (rtLayer l) := by
-  have hg : loadGlyphs (saveLayerDir l) (saveLayerDir l).contents = some l.glyphs := by
-    simpa [saveLayerDir] using loadGlyphs_spec l h l.glyphs (fun _ hx => hx)
+theorem loadLayer_spec (l : (Layer P)) (h : nodupS (l.glyphs.map (·.file)) = true)
+    (hok : ∀ g ∈ l.glyphs, L.glyphOK g.tok) :
+    loadLayer l.name l.dir (saveLayerDir l) = some (rtLayer L l) := by
+  have hg : loadGlyphs (saveLayerDir l) (saveLayerDir l).contents = some (l.glyphs.map (normE L)) := by
+    simpa [saveLayerDir] using loadGlyphs_spec L l h hok l.glyphs (fun _ hx => hx)
   unfold loadLayer
   rw [hg]
   simp only [saveLayerDir, saveLayerInfo, rtLayer]
@@ -264,12 +296,13 @@ theorem loadLayer_spec (l : Layer) (h : nodupS (l.glyphs.map (·.file)) = true) 
       simp [this, sortDict_nil, Option.map_map, Function.comp_def]; rfl
     · simp [he, Option.map_map, Function.comp_def]; rfl
 
-theorem loadLayers_spec (ls : List Layer) (t : Tree)
+theorem loadLayers_spec (ls : List (Layer P)) (t : (Tree P))
     (ht : t.dirs = ls.map (fun l => (l.dir, saveLayerDir l)))
     (hd : nodupS (ls.map (·.dir)) = true)
-    (hf : ∀ l ∈ ls, nodupS (l.glyphs.map (·.file)) = true) :
-    ∀ xs : List Layer, (∀ x ∈ xs, x ∈ ls) →
-      loadLayers t (xs.map fun l => (l.name, l.dir)) = .ok (xs.map rtLayer) := by
+    (hf : ∀ l ∈ ls, nodupS (l.glyphs.map (·.file)) = true)
+    (hok : ∀ l ∈ ls, ∀ g ∈ l.glyphs, L.glyphOK g.tok) :
+    ∀ xs : List (Layer P), (∀ x ∈ xs, x ∈ ls) →
+      loadLayers t (xs.map fun l => (l.name, l.dir)) = .ok (xs.map (rtLayer L)) := by
   intro xs
   induction xs with
   | nil => intro _; rfl
@@ -279,7 +312,7 @@ theorem loadLayers_spec (ls : List Layer) (t : Tree)
     have hr := ih (fun x hx' => hx x (List.mem_cons_of_mem _ hx'))
     have hlk : lookupS l.dir t.dirs = some (saveLayerDir l) := by
       rw [ht]; exact lookupS_map (·.dir) saveLayerDir ls hd l hl
-    simp only [List.map_cons, loadLayers, hlk, loadLayer_spec l (hf l hl), hr]
+    simp only [List.map_cons, loadLayers, hlk, loadLayer_spec L l (hf l hl) (hok l hl), hr]
 
 /-! ## the whole font -/
 
@@ -287,7 +320,7 @@ theorem loadLayers_spec (ls : List Layer) (t : Tree)
     key absent, guideline identifiers unique and present where a lib is attached (guaranteed by
     `replace_lib`), layer directories distinct with the default layer first and glif file names
     distinct inside a layer (the container invariant of C06) -/
-structure ValidFont (f : Font) : Prop where
+structure ValidFont (f : (Font P)) : Prop where
   fv : f.fv = 3
   noKey : lookupKV objectLibsKey f.lib = none
   ids : idsNodup ((f.info.guides.getD []).map (·.id)) = true
@@ -295,26 +328,30 @@ structure ValidFont (f : Font) : Prop where
   dirs : nodupS (f.layers.map (·.dir)) = true
   defFirst : ∃ l r, f.layers = l :: r ∧ l.dir = glyphsDir
   files : ∀ l ∈ f.layers, nodupS (l.glyphs.map (·.file)) = true
+  /-- every glyph is inside the guard of the glif round trip (C02) -/
+  glyphsOK : ∀ l ∈ f.layers, ∀ g ∈ l.glyphs, L.glyphOK g.tok
+  /-- the other font-info fields pass `FontInfo::validate` (C13 `validate_iff_rules`: iff the rules hold) -/
+  restValid : restOK f.info = true
 
-def rtLib (f : Font) : Dict :=
+def rtLib (f : (Font P)) : Dict :=
   if (objLibsOf (f.info.guides.getD [])).isEmpty then sortDict f.lib
   else eraseKV objectLibsKey (sortDict (f.lib ++ [(objectLibsKey, PV.dict (objLibsOf (f.info.guides.getD [])))]))
 
-def rtInfo (i : Info) : Info :=
+def rtInfo (i : (Info P)) : (Info P) :=
   { nums := loadNums (saveNums i.nums), upm := (i.upm.map (writeWith upmWrite)).map readNum,
     guides := i.guides.map (·.map sortGuide), rest := i.rest }
 
 /-- the font that `load(save(f))` returns -/
-def rtFont (f : Font) : Font :=
+def rtFont (f : (Font P)) : (Font P) :=
   { creator := some defaultCreator, fv := 3, minor := if f.creator = some defaultCreator then f.minor else 0,
     info := rtInfo f.info, lib := rtLib f, groups := f.groups,
     kerning := loadKerning (saveKerning f.kerning), features := crlfToLf f.features,
-    layers := f.layers.map rtLayer, data := f.data, images := f.images }
+    layers := f.layers.map (rtLayer L), data := f.data, images := f.images }
 
-theorem saveFont_ok (f : Font) (hv : ValidFont f) :
+theorem saveFont_ok (f : (Font P)) (hv : ValidFont L f) :
     saveFont f = .ok (mkTree f (objLibsOf (f.info.guides.getD []))) := by
   unfold saveFont
-  simp [hv.fv, hv.noKey, hv.ids, dumpObjectLibs_ok _ hv.libIds, hv.dirs]
+  simp [hv.fv, hv.noKey, hv.ids, hv.restValid, dumpObjectLibs_ok _ hv.libIds, hv.dirs]
 
 theorem gate_groups (g : List (String × List String)) : (if g.isEmpty = true then none else some g).getD [] = g := by
   cases g <;> simp
@@ -326,16 +363,28 @@ theorem gate_kerning (k : List (String × List (String × NumV))) :
 theorem gate_features (s : List Char) : (if s.isEmpty = true then none else some (crlfToLf s)).getD [] = crlfToLf s := by
   cases s <;> simp [crlfToLf]
 
-theorem saveInfo_ids (i : Info) :
+theorem saveInfo_ids (i : (Info P)) :
     ((saveInfo i).guides.getD []).map (·.id) = (i.guides.getD []).map (·.id) := by
   unfold saveInfo
   cases i.guides <;> simp
 
-theorem saveInfo_guides (i : Info) : (saveInfo i).guides = i.guides.map (·.map toGuideF) := rfl
+theorem saveInfo_guides (i : (Info P)) : (saveInfo i).guides = i.guides.map (·.map toGuideF) := rfl
 
 theorem sortRec_dict (l : Dict) : sortRec (PV.dict l) = PV.dict (sortDict l) := by simp [sortRec, sortDict]
 
-theorem loadInfo_spec (f : Font) (hv : ValidFont f) :
+/-- the un-modelled fields of a valid font info come back as they were (law `rest_rt`) -/
+theorem loadRest_saved (L : PartLaws P) (i : (Info P)) (h : restOK i = true) :
+    loadRest (saveInfo i).rest = some i.rest := by
+  unfold restOK at h
+  simp only [saveInfo, loadRest]
+  cases hr : i.rest with
+  | none => rfl
+  | some r =>
+    rw [hr] at h
+    simp only at h
+    simp [L.rest_rt r h, h]
+
+theorem loadInfo_spec (f : (Font P)) (hv : ValidFont L f) :
     loadInfo (saveInfo f.info)
       ((if (if (objLibsOf (f.info.guides.getD [])).isEmpty = true then f.lib
             else f.lib ++ [(objectLibsKey, PV.dict (objLibsOf (f.info.guides.getD [])))]).isEmpty = true then none
@@ -343,7 +392,7 @@ theorem loadInfo_spec (f : Font) (hv : ValidFont f) :
             else f.lib ++ [(objectLibsKey, PV.dict (objLibsOf (f.info.guides.getD [])))]))).getD [])
       = .ok (rtInfo f.info, rtLib f) := by
   unfold loadInfo
-  rw [saveInfo_ids, hv.ids]
+  rw [saveInfo_ids, hv.ids, loadRest_saved L f.info hv.restValid]
   simp only [Bool.not_true, Bool.false_eq_true, if_false]
   by_cases hol : (objLibsOf (f.info.guides.getD [])).isEmpty = true
   · -- no object libs: the lib is written as it is (sorted), nothing to move back
@@ -388,7 +437,7 @@ theorem loadInfo_spec (f : Font) (hv : ValidFont f) :
       simp only [rtInfo, rtLib, hgs, Option.getD_some, hol2, Option.map_some, saveInfo]
       simp
 
-theorem isEmpty_rtInfo (i : Info) (h : i.isEmpty = true) : rtInfo i = {} := by
+theorem isEmpty_rtInfo (i : (Info P)) (h : i.isEmpty = true) : rtInfo i = {} := by
   cases i with
   | mk nums upm guides rest =>
     simp only [Info.isEmpty, Bool.and_eq_true, List.isEmpty_iff, Option.isNone_iff_eq_none] at h
@@ -396,38 +445,38 @@ theorem isEmpty_rtInfo (i : Info) (h : i.isEmpty = true) : rtInfo i = {} := by
     subst h1 h2 h3 h4
     simp [rtInfo, loadNums, saveNums]
 
-theorem mkTree_fontinfo (f : Font) (ol : Dict) :
+theorem mkTree_fontinfo (f : (Font P)) (ol : Dict) :
     (mkTree f ol).fontinfo = if f.info.isEmpty = true then none else some (saveInfo f.info) := rfl
-theorem mkTree_lib (f : Font) (ol : Dict) :
+theorem mkTree_lib (f : (Font P)) (ol : Dict) :
     (mkTree f ol).lib =
       if (if ol.isEmpty = true then f.lib else f.lib ++ [(objectLibsKey, PV.dict ol)]).isEmpty = true then none
       else some (sortDict (if ol.isEmpty = true then f.lib else f.lib ++ [(objectLibsKey, PV.dict ol)])) := rfl
-theorem mkTree_groups (f : Font) (ol : Dict) :
+theorem mkTree_groups (f : (Font P)) (ol : Dict) :
     (mkTree f ol).groups = if f.groups.isEmpty = true then none else some f.groups := rfl
-theorem mkTree_kerning (f : Font) (ol : Dict) :
+theorem mkTree_kerning (f : (Font P)) (ol : Dict) :
     (mkTree f ol).kerning = if f.kerning.isEmpty = true then none else some (saveKerning f.kerning) := rfl
-theorem mkTree_features (f : Font) (ol : Dict) :
+theorem mkTree_features (f : (Font P)) (ol : Dict) :
     (mkTree f ol).features = if f.features.isEmpty = true then none else some (crlfToLf f.features) := rfl
-theorem mkTree_creator (f : Font) (ol : Dict) : (mkTree f ol).creator = some defaultCreator := by
+theorem mkTree_creator (f : (Font P)) (ol : Dict) : (mkTree f ol).creator = some defaultCreator := by
   simp only [mkTree]; split <;> simp_all
-theorem mkTree_minor (f : Font) (ol : Dict) :
+theorem mkTree_minor (f : (Font P)) (ol : Dict) :
     (mkTree f ol).minor = if f.creator = some defaultCreator then f.minor else 0 := rfl
-theorem mkTree_data (f : Font) (ol : Dict) : (mkTree f ol).data = f.data := rfl
-theorem mkTree_images (f : Font) (ol : Dict) : (mkTree f ol).images = f.images := rfl
-theorem mkTree_layercontents (f : Font) (ol : Dict) :
+theorem mkTree_data (f : (Font P)) (ol : Dict) : (mkTree f ol).data = f.data := rfl
+theorem mkTree_images (f : (Font P)) (ol : Dict) : (mkTree f ol).images = f.images := rfl
+theorem mkTree_layercontents (f : (Font P)) (ol : Dict) :
     (mkTree f ol).layercontents = f.layers.map fun l => (l.name, l.dir) := rfl
 
-/-- `load(save(f))` succeeds and is `rtFont f` -/
-theorem save_load_eq (f : Font) (hv : ValidFont f) :
-    ∃ t, saveFont f = .ok t ∧ loadFont t = .ok (rtFont f) := by
-  refine ⟨_, saveFont_ok f hv, ?_⟩
+/-- `load(save(f))` succeeds and is `rtFont L f` -/
+theorem save_load_eq (f : (Font P)) (hv : ValidFont L f) :
+    ∃ t, saveFont f = .ok t ∧ loadFont t = .ok (rtFont L f) := by
+  refine ⟨_, saveFont_ok L f hv, ?_⟩
   have hlay : loadLayers (mkTree f (objLibsOf (f.info.guides.getD []))) (f.layers.map fun l => (l.name, l.dir)) =
-      .ok (f.layers.map rtLayer) :=
-    loadLayers_spec f.layers _ rfl hv.dirs hv.files f.layers (fun _ h => h)
-  have hdf : defaultFirst (f.layers.map rtLayer) = .ok (f.layers.map rtLayer) := by
+      .ok (f.layers.map (rtLayer L)) :=
+    loadLayers_spec L f.layers _ rfl hv.dirs hv.files hv.glyphsOK f.layers (fun _ h => h)
+  have hdf : defaultFirst (f.layers.map (rtLayer L)) = .ok (f.layers.map (rtLayer L)) := by
     obtain ⟨l, r, h1, h2⟩ := hv.defFirst
     rw [h1]
-    exact defaultFirst_id (rtLayer l) (r.map rtLayer) h2
+    exact defaultFirst_id (rtLayer L l) (r.map (rtLayer L)) h2
   unfold loadFont
   rw [mkTree_layercontents, hlay]
   simp only [hdf, mkTree_fontinfo, mkTree_lib, mkTree_groups, mkTree_kerning, mkTree_features, mkTree_creator,
@@ -447,7 +496,7 @@ theorem save_load_eq (f : Font) (hv : ValidFont f) :
       | cons a r => simp
     simp only [hie, if_true, hol, List.isEmpty_nil, hlib0]
     simp only [rtFont, isEmpty_rtInfo _ hie, rtLib, hol, List.isEmpty_nil, if_true]
-  · have hinfo := loadInfo_spec f hv
+  · have hinfo := loadInfo_spec L f hv
     simp only [hie, Bool.false_eq_true, if_false]
     rw [hinfo]
     rfl
